@@ -138,8 +138,10 @@ Definition wf_path (p : list bytes) : bool := forallb wf_seg_chars p.
    net/url nor ada validates them in a query) *)
 Definition printable c := (32 <=? N_of_ascii c)%N && (N_of_ascii c <=? 126)%N.
 Definition query_char c := printable c && negb (Ascii.eqb c "#").
+(* a query may not end with a space: when net/url drops an empty fragment behind it the space
+   becomes the end of the text, which ada trims *)
 Definition wf_query (q : option bytes) : bool :=
-  match q with None => true | Some x => forallb query_char x end.
+  match q with None => true | Some x => forallb query_char x && negb (Ascii.eqb (last x "x") " ") end.
 
 (* fragment: printable ASCII except '#', with complete escapes (net/url rejects a URL whose
    fragment has a bad escape) *)
